@@ -18,7 +18,8 @@ type Type struct {
 type Field struct {
 	Name string
 	T    *Type
-	Sem  string // HLSL semantic / MSL attribute
+	Sem  string   // HLSL semantic / MSL attribute
+	Qual []string // interpolation qualifiers written in front of the member
 }
 
 var (
@@ -27,6 +28,8 @@ var (
 	tInt   = &Type{K: 'i', Name: "int"}
 	tUint  = &Type{K: 'u', Name: "uint"}
 	tFloat = &Type{K: 'f', Name: "float"}
+	tHalf  = &Type{K: 'f', Name: "half", Bits: 16} // MSL half: a float for evaluation, 2 bytes in memory
+	tAuto  = &Type{K: '?', Name: "auto"}           // MSL `auto`: the type of the initialiser
 	tUchar = &Type{K: 'u', Name: "uchar", Bits: 8}
 	tChar  = &Type{K: 'i', Name: "char", Bits: 8}
 	tBuf   = &Type{K: 'B', Name: "RWByteAddressBuffer"}
@@ -47,8 +50,10 @@ func scalarByName(s string) *Type {
 		return tUchar
 	case "uint", "uint32_t", "dword", "unsigned":
 		return tUint
-	case "float", "half", "min16float":
+	case "float", "min16float":
 		return tFloat
+	case "half":
+		return tHalf
 	case "bool":
 		return tBool
 	case "void":
@@ -133,14 +138,16 @@ type fn struct {
 	params []*node // k="param", s=name, t=type, ref
 	space  []string
 	body   *node
+	retSem string // HLSL semantic of the return value
 }
 
 type global struct {
 	name   string
 	t      *Type
 	init   *node
-	class  string // "buffer" (storage block member), "uniform" (cbuffer / uniform block member), "shared", "" otherwise
-	std140 bool   // GLSL block declared layout(std140)
+	class  string   // "buffer" (storage block member), "uniform" (cbuffer / uniform block member), "shared", "" otherwise
+	std140 bool     // GLSL block declared layout(std140)
+	quals  []string // declaration qualifiers (GLSL in/out, interpolation, "location=N")
 }
 
 type Program struct {
@@ -229,6 +236,9 @@ func (p *Program) typeByName(s string) *Type {
 	if t, ok := p.typedefs[s]; ok {
 		return t
 	}
+	if s == "auto" && p.d == MSL {
+		return tAuto
+	}
 	if s == "DefaultConstructible" && p.d != MSL {
 		return nil // only naga's MSL prelude defines it; elsewhere it is an ordinary name
 	}
@@ -274,8 +284,13 @@ func (p *Program) qualifiers() []string {
 		if t.k == 'i' && t.s == "layout" {
 			p.next()
 			for p.peek().k != 0 && !(p.peek().k == 'p' && p.peek().s == ")") {
-				if q := p.next(); q.k == 'i' && (q.s == "std140" || q.s == "std430") {
+				q := p.next()
+				if q.k == 'i' && (q.s == "std140" || q.s == "std430") {
 					qs = append(qs, q.s)
+				}
+				if q.k == 'i' && q.s == "location" && p.isP("=") && p.peekAt(1).k == 'n' {
+					p.next()
+					qs = append(qs, "location="+p.next().s)
 				}
 			}
 			p.next()
@@ -372,7 +387,7 @@ func (p *Program) structBody(name string) *Type {
 	st := &Type{K: 'S', Name: name}
 	p.expect("{")
 	for !p.isP("}") && p.peek().k != 0 && p.err == "" {
-		p.qualifiers()
+		fq := p.qualifiers()
 		ft := p.parseType()
 		for {
 			fname := p.next()
@@ -388,7 +403,7 @@ func (p *Program) structBody(name string) *Type {
 			for p.peek().k == 'a' {
 				sem = p.next().s
 			}
-			st.Fields = append(st.Fields, Field{fname.s, t, sem})
+			st.Fields = append(st.Fields, Field{fname.s, t, sem, fq})
 			if !p.accept(",") {
 				break
 			}
@@ -557,7 +572,7 @@ func (p *Program) topLevel() {
 			p.next()
 		}
 		if p.accept(":") { // HLSL return semantic
-			p.next()
+			f.retSem = p.next().s
 		}
 		if p.accept(";") { // prototype
 			return
@@ -579,7 +594,7 @@ func (p *Program) topLevel() {
 	// global variable(s)
 	for {
 		gt := p.arraySuffix(t)
-		g := &global{name: name.s, t: gt}
+		g := &global{name: name.s, t: gt, quals: qs}
 		for _, og := range p.globals {
 			if og.name == name.s {
 				p.Dups = append(p.Dups, "module-scope name "+name.s+" is declared twice")
@@ -962,6 +977,9 @@ func (p *Program) parsePrimary() *node {
 				ty = p.arraySuffix(ty)
 				if p.isP("{") {
 					in := p.initializer()
+					if ty.K == 'S' || ty.K == 'A' { // aggregate initialisation: members may be brace lists
+						return &node{k: "tinit", t: ty, kids: []*node{in}}
+					}
 					return &node{k: "ctor", t: ty, kids: in.kids}
 				}
 				return &node{k: "ctor", t: ty, kids: p.args()}
